@@ -359,6 +359,20 @@ def main():
         m = re.search(r'name = "' + re.escape(name) + r'"\nversion = "([^"]+)"', lock)
         return m.group(1) if m else "?"
     out.append("/-- versions of the two signalling crates in Cargo.lock (their protocol is modelled from this source) -/\ndef chanSignalCrates : List String := " + strs(["async-event " + locked("async-event"), "diatomic-waker " + locked("diatomic-waker")]))
+    # ---- util/slot.rs: the operations of the one-shot slot (M-SLOT)
+    slsrc = rd("util/slot.rs")
+    def after(hdr):
+        mm = re.search(hdr, slsrc)
+        return slsrc[mm.end():] if mm else ""
+    slcalls = ("write_value", "read_value", "drop_value_in_place", "Box::from_raw")
+    sl = [("slotWrite", fn_body(after(r"impl<T> SlotWriter<T> \{"), r"fn\s+write\s*\(self, value: T\)[^{]*\{"), "`SlotWriter::write`"),
+          ("slotWriterDrop", fn_body(after(r"impl<T> Drop for SlotWriter<T> \{"), r"fn\s+drop\s*\(&mut self\)\s*\{"), "`SlotWriter::drop`"),
+          ("slotTryRead", fn_body(after(r"impl<T> SlotReader<T> \{"), r"fn\s+try_read\s*\(&mut self\)[^{]*\{"), "`SlotReader::try_read`"),
+          ("slotReaderDrop", fn_body(after(r"impl<T> Drop for SlotReader<T> \{"), r"fn\s+drop\s*\(&mut self\)\s*\{"), "`SlotReader::drop`")]
+    for nm, body, doc in sl:
+        if body is None:
+            die("util/slot.rs: " + doc + " not found")
+        out.append(lean_list(nm, atomic_ops(body, calls=slcalls), doc + ": atomic operations, accesses to the value and the free, in textual order"))
     # ---- simulation.rs / sim_init.rs / model/context.rs: identifiers, table of names, observers (M-NAMES)
     simn = norm(rd("simulation.rs"))
     am = fn_body(simn, r"pub\(crate\) fn add_model<P: ProtoModel>\(")
